@@ -447,6 +447,9 @@ func typedJobs(group string, add func(kind, id string, w int, s map[string]strin
 		switch group {
 		case "trees":
 			if el == "i8" {
+				for _, c := range []string{"rbt", "avl", "treemap", "btree", "treeset"} {
+					add("anysys", c+".fzero", 3, map[string]string{"c": c, "elem": "fzero"}, map[string]int{"m": 3})
+				}
 				for _, c := range []string{"rbt", "avl", "treemap", "btree"} {
 					add("anysys", c+".time", 3, map[string]string{"c": c, "elem": "time"}, map[string]int{"u": 5, "m": 3})
 				}
@@ -457,21 +460,37 @@ func typedJobs(group string, add func(kind, id string, w int, s map[string]strin
 			add("anysys", "rbt.rev."+el, 3, map[string]string{"c": "rbt", "cmp": "rev", "elem": el}, map[string]int{"u": 5})
 			add("anysys", "btree4.coarse."+el, 3, map[string]string{"c": "btree", "cmp": "coarse", "elem": el}, map[string]int{"u": 5, "m": 4})
 		case "hashmaps":
+			if el == "i8" {
+				for _, c := range []string{"treemap", "rbt", "avl", "btree"} {
+					add("anysys", c+".pstr", 3, map[string]string{"c": c, "elem": "pstr"}, map[string]int{"u": 3, "m": 3})
+				}
+			}
 			for _, c := range []string{"hashmap", "linkedhashmap"} {
 				add("anysys", c+"."+el, 3, map[string]string{"c": c, "elem": el}, map[string]int{"u": 4})
 			}
 		case "bidi":
 			if el == "i8" { // once: time.Time keys and values under the library's own utils.TimeComparator
+				add("anysys", "treebidimap.fzero", 3, map[string]string{"c": "treebidimap", "elem": "fzero"}, nil)
 				add("anysys", "treebidimap.time", 3, map[string]string{"c": "treebidimap", "elem": "time"}, map[string]int{"u": 4})
 			}
 			add("anysys", "treebidimap.New."+el, 3, map[string]string{"c": "treebidimap", "ctor": "default", "elem": el}, map[string]int{"u": 3})
 			add("anysys", "treebidimap.rev.coarse."+el, 3, map[string]string{"c": "treebidimap", "cmp": "rev", "vcmp": "coarse", "elem": el}, map[string]int{"u": 3, "vu": 4})
 			add("anysys", "hashbidimap."+el, 3, map[string]string{"c": "hashbidimap", "elem": el}, map[string]int{"u": 3})
 		case "lists":
+			if el == "i8" { // pointer elements with a String() method, a typed nil among them
+				for _, c := range []string{"arraylist", "singlylinkedlist", "doublylinkedlist"} {
+					add("anysys", c+".pstr", 5, map[string]string{"c": c, "elem": "pstr"}, map[string]int{"n": 3, "u": 3})
+				}
+			}
 			for _, c := range []string{"arraylist", "singlylinkedlist", "doublylinkedlist"} {
 				add("anysys", c+"."+el, 5, map[string]string{"c": c, "elem": el}, map[string]int{"n": 4, "u": 3, "jsonops": 1})
 			}
 		case "sets":
+			if el == "i8" {
+				for _, c := range []string{"treeset"} { // (the fingerprint does not support pointers inside Go maps)
+					add("anysys", c+".pstr", 3, map[string]string{"c": c, "elem": "pstr"}, map[string]int{"u": 3})
+				}
+			}
 			for _, c := range []string{"hashset", "linkedhashset"} {
 				add("anysys", c+"."+el, 3, map[string]string{"c": c, "elem": el}, map[string]int{"u": 4})
 			}
@@ -481,11 +500,21 @@ func typedJobs(group string, add func(kind, id string, w int, s map[string]strin
 			add("anysys", "treeset.New."+el, 3, map[string]string{"c": "treeset", "ctor": "default", "elem": el}, map[string]int{"u": 5})
 			add("anysys", "treeset.rev."+el, 3, map[string]string{"c": "treeset", "cmp": "rev", "elem": el}, map[string]int{"u": 4})
 		case "seqs":
+			if el == "i8" {
+				for _, c := range []string{"arraystack", "linkedliststack", "arrayqueue", "linkedlistqueue", "circularbuffer"} {
+					add("anysys", c+".pstr", 3, map[string]string{"c": c, "elem": "pstr"}, map[string]int{"n": 3, "u": 3, "cap": 2})
+				}
+			}
 			for _, c := range []string{"arraystack", "linkedliststack", "arrayqueue", "linkedlistqueue"} {
 				add("anysys", c+"."+el, 3, map[string]string{"c": c, "elem": el}, map[string]int{"n": 4, "u": 3, "jsonops": 1})
 			}
 			add("anysys", "ring3."+el, 3, map[string]string{"c": "circularbuffer", "elem": el}, map[string]int{"cap": 3, "u": 3, "jsonops": 1})
 		case "heaps":
+			if el == "i8" {
+				for _, c := range []string{"binaryheap", "priorityqueue"} {
+					add("anysys", c+".pstr", 3, map[string]string{"c": c, "elem": "pstr"}, map[string]int{"n": 4, "u": 3})
+				}
+			}
 			for _, c := range []string{"binaryheap", "priorityqueue"} {
 				add("anysys", c+".New."+el, 3, map[string]string{"c": c, "ctor": "default", "elem": el}, map[string]int{"n": 5, "u": 4})
 				add("anysys", c+".max."+el, 3, map[string]string{"c": c, "cmp": "rev", "elem": el}, map[string]int{"n": 5, "u": 4})
